@@ -17,7 +17,7 @@ import sys
 VERIF = os.path.dirname(os.path.dirname(os.path.abspath(__file__)))
 REPO = os.environ.get("VERIF_REPO", "/repo")
 SRC_REL = os.path.join("internal", "p4constants", "p4constants.go")
-OUT = os.path.join(VERIF, "coq", "Gen", "P4Const_gen.v")
+OUT = os.path.join(os.environ.get("VERIF_COQ_DIR", os.path.join(VERIF, "coq")), "Gen", "P4Const_gen.v")
 
 
 class P4ConstSyntaxError(Exception):
